@@ -29,7 +29,7 @@ REQUIRED_REACH = ["xgcm.padding._pad_face_connections", "xgcm.grid.Grid._1d_grid
 
 SIMPLE_OPS = ["diff", "interp", "min", "max", "cumsum", "cumint", "derivative", "integrate", "average", "get_metric", "interp_like",
               "ufunc", "gu_call", "gu_override", "pad", "vec_diff", "vec_interp", "diff_multi", "mw_diff", "transform_lin", "transform_cons", "transform_anon",
-              "lazy_diff", "bad_axis", "bad_to", "bad_boundary", "bad_fill", "diff_to_dict"]
+              "lazy_diff", "bad_axis", "bad_to", "bad_boundary", "bad_fill", "diff_to_dict", "interp_to_none", "max_to_none_u"]
 FACE_OPS = ["diff", "interp", "max", "vec_diff", "vec_interp", "vec_multi", "diff_2d_vector", "interp_2d_vector", "pad_scalar",
             "pad_vector", "lazy_vec", "bad_axis", "vec_no_other", "cumsum"]
 
@@ -98,6 +98,8 @@ def build_world(desc):
         W["F"] = {"X": -1.0, "Y": 5.0}
         W["T"] = {"X": "left", "Y": "left"}
         W["MW"] = {"X": ("X",), "Y": ["Y"]}
+        W["Tn"] = {"X": None, "Y": "left"}  # None: not specified for X, the default shift applies
+        W["Bn"] = {"X": None, "Y": "extend"}
         W["BW"] = {"X": (1, 0)}
         W["PW"] = {"X": (2, 1), "Y": (0, 1)}
         W["axes_list"] = ["X", "Y"]
@@ -162,6 +164,10 @@ def do(op, W, g, desc):
     if desc["world"] == "simple":
         if op in ("diff", "interp", "min", "max"):
             return getattr(g, op)(W["da"], W["axes_list"], to=W["T"], boundary=W["B"], fill_value=W["F"])
+        if op == "interp_to_none":
+            return g.interp(W["da"], W["axes_list"], to=W["Tn"], boundary=W["B"], fill_value=W["F"])
+        if op == "max_to_none_u":
+            return g.max(W["u"], W["axes_list"], to=W["Tn"], boundary=W["Bn"])
         if op == "diff_to_dict":
             return g.diff(W["da"], "X", to=W["T"], boundary=W["Bp"], keep_coords=True)
         if op == "cumsum":
